@@ -25,14 +25,14 @@ BASE = dict(c06.BASE, Viols=ALL, PairConf="TRUE")
 
 SLICES_QUICK = [
     ("all classes, text/ping, <= 4 frames", {"Ops": '{"text"}', "CtlOps": '{"ping"}', "CtlLens": "{0}", "Lens": "{1}", "VLens": "{0, 1, 126}",
-                                            "MaxMsgs": 2, "MaxFrags": 3, "MaxCtl": 1, "MaxFrames": 4}, 6, 4),
+                                            "MaxMsgs": 2, "MaxFrags": 2, "MaxCtl": 1, "MaxFrames": 4}, 5, 4),
     ("binary/pong, 16/64-bit lengths, <= 3 frames", {"Ops": '{"binary"}', "CtlOps": '{"pong"}', "CtlLens": "{125}", "Lens": "{126}", "VLens": "{1, 65536}",
                                                     "MaxMsgs": 2, "MaxFrags": 2, "MaxCtl": 1, "MaxFrames": 3}, 2, 2),
     ("size limits", {"Ops": '{"text"}', "CtlOps": '{"ping"}', "CtlLens": "{0}", "Lens": "{1, 70000}", "VLens": "{1}",
                      "Viols": '{"msg-over-max", "frame-over-max"}', "MaxMsgs": 1, "MaxFrags": 3, "MaxCtl": 1, "MaxFrames": 4}, 2, 2),
 ]
 SLICES_THOROUGH = [
-    ("all classes, text/ping, <= 4 frames", SLICES_QUICK[0][1], 1, 4),
+    ("all classes, text/ping, <= 4 frames", dict(SLICES_QUICK[0][1], MaxFrags=3), 1, 4),
     ("binary/pong, 16/64-bit lengths, <= 4 frames", dict(SLICES_QUICK[1][1], MaxFrames=4), 2, 4),
     ("size limits", SLICES_QUICK[2][1], 1, 2),
     ("both types, both controls, framing classes", {"Ops": '{"text", "binary"}', "CtlOps": '{"ping", "pong"}', "CtlLens": "{0, 125}", "Lens": "{0, 126}", "VLens": "{0, 125}",
